@@ -36,7 +36,7 @@ impl Proj {
     }
 }
 
-const FLAGS: &[&str] = &["rec", "enum", "phys", "inc", "prot", "attr", "subp", "op", "proc", "alias", "comp", "gpk", "lib2", "cfg", "ctx", "gen", "blk", "inst", "misc", "ieee", "more", "uattr"];
+const FLAGS: &[&str] = &["rec", "enum", "phys", "inc", "prot", "attr", "subp", "op", "proc", "alias", "comp", "gpk", "lib2", "cfg", "ctx", "gen", "blk", "inst", "misc", "ieee", "more", "uattr", "entdecl", "nest"];
 
 /// `{key}`: identifier of the project's name table in a random letter case.  `@flag: line`: only when the
 /// feature is enabled (`@a&b:` needs both).
@@ -356,6 +356,103 @@ begin
 end architecture {ax};
 "#;
 
+const T_ED_ENT: &str = r#"entity {ed} is
+  generic ({ed_g} : natural := 2);
+  port ({ed_a} : in integer; {ed_q} : out integer; {ed_r} : out integer);
+  constant {ed_gain} : integer := 3;
+  type {ed_t} is ({ed_lo}, {ed_hi});
+  attribute {ed_at} : integer;
+  attribute {ed_at} of {ed_gain} : constant is 1;
+  function {scale}({value} : integer; {factor} : integer) return integer is
+    variable {ed_tmp} : integer;
+  begin
+    {ed_tmp} := {value} * {factor};
+    return {ed_tmp};
+  end function {scale};
+  procedure {clampp}(signal {target} : out integer; {plimit} : in integer) is
+  begin
+    {target} <= {plimit};
+  end procedure {clampp};
+end entity {ed};
+"#;
+
+const T_ED_ARCH: &str = r#"architecture {ed_rtl} of {ed} is
+  signal {ed_s} : {ed_t} := {ed_lo};
+begin
+  {ed_q} <= {scale}({value} => {ed_a}, {factor} => {ed_gain}) + {ed_gain}'{ed_at} + {ed_g};
+  {clampp}({target} => {ed_r}, {plimit} => {scale}({ed_a}, 2));
+  {ed_s} <= {ed_hi} when {ed_a} > 0 else {ed_lo};
+end architecture {ed_rtl};
+"#;
+
+const T_ED_TB: &str = r#"entity {ed_tb} is
+end entity {ed_tb};
+architecture {tsim} of {ed_tb} is
+  signal {tx}, {ty}, {tz} : integer;
+  component {ed} is
+    generic ({ed_g} : natural := 2);
+    port ({ed_a} : in integer; {ed_q} : out integer; {ed_r} : out integer);
+  end component {ed};
+begin
+  {d1} : entity work.{ed}({ed_rtl}) generic map ({ed_g} => 1) port map ({ed_a} => {tx}, {ed_q} => {ty}, {ed_r} => {tz});
+  {d2} : component {ed} generic map ({ed_g} => 3) port map ({ed_a} => {tx}, {ed_q} => open, {ed_r} => open);
+end architecture {tsim};
+"#;
+
+const T_NEST_PKG: &str = r#"package {counter_pkg} is
+  generic ({cmax} : natural := 7);
+  constant {nlimit} : natural := {cmax};
+  function {cwrap}({cvalue} : natural) return natural;
+end package {counter_pkg};
+package body {counter_pkg} is
+  function {cwrap}({cvalue} : natural) return natural is
+  begin
+    return {cvalue} mod ({nlimit} + 1);
+  end function {cwrap};
+end package body {counter_pkg};
+
+package {channel_pkg} is
+  generic ({cwidth} : natural := 8);
+  package {ncnt} is new work.{counter_pkg} generic map ({cmax} => {cwidth});
+  constant {ctop} : natural := {ncnt}.{nlimit};
+end package {channel_pkg};
+
+package {channel8} is new work.{channel_pkg} generic map ({cwidth} => 8);
+
+package {bank_pkg} is
+  generic ({nb} : natural := 2);
+  package {nch} is new work.{channel_pkg} generic map ({cwidth} => {nb});
+end package {bank_pkg};
+
+package {bank2} is new work.{bank_pkg} generic map ({nb} => 2);
+
+package {user_pkg} is
+  function {peak} return natural;
+end package {user_pkg};
+package body {user_pkg} is
+  package {bch} is new work.{channel_pkg} generic map ({cwidth} => 5);
+  function {peak} return natural is
+    package {sch} is new work.{counter_pkg} generic map ({cmax} => 3);
+  begin
+    return {sch}.{nlimit} + {bch}.{ncnt}.{nlimit} + {sch}.{cwrap}({cvalue} => 9);
+  end function {peak};
+end package body {user_pkg};
+"#;
+
+const T_NEST_USE: &str = r#"entity {nest_e} is
+  package {ech} is new work.{channel_pkg} generic map ({cwidth} => 6);
+end entity {nest_e};
+architecture {na} of {nest_e} is
+  package {lch} is new work.{channel_pkg} generic map ({cwidth} => 4);
+  constant {k1} : natural := work.{channel8}.{ncnt}.{nlimit} + work.{channel8}.{ctop};
+  constant {k2} : natural := work.{channel8}.{ncnt}.{cwrap}({cvalue} => 3);
+  constant {k3} : natural := work.{bank2}.{nch}.{ncnt}.{nlimit} + work.{bank2}.{nch}.{ncnt}.{cwrap}({cvalue} => 1) + work.{bank2}.{nch}.{ctop};
+  constant {k4} : natural := {lch}.{ncnt}.{nlimit} + {lch}.{ncnt}.{cwrap}({cvalue} => 2) + {ech}.{ncnt}.{nlimit};
+  constant {k5} : natural := work.{user_pkg}.{peak};
+begin
+end architecture {na};
+"#;
+
 const T_LIB2: &str = r#"package {pk2} is
   constant {c2} : integer := 7;
 end package {pk2};
@@ -369,6 +466,7 @@ const KEYS: &[&str] = &[
     "vec", "mem_t", "mem", "loc", "u0", "u1", "u2", "blk", "bs", "gen", "gi", "gs", "ifg", "ga", "gb", "proc", "cfg", "ctx", "tb", "sim", "c", "sl", "slv", "un",
     "pkx", "gf", "t", "gfi", "fh", "rd", "f", "sel_t", "a0", "a1", "ln", "gpx", "gp2", "ip", "c9", "gpxi", "gp2i", "ex", "sel", "o", "ax", "kx", "vx",
     "cg", "b0", "b1", "px", "nx", "l1", "ix", "l2", "cs", "nosuch", "nosuch2",
+    "bank2", "bank_pkg", "bch", "channel8", "channel_pkg", "clampp", "cmax", "counter_pkg", "ctop", "cvalue", "cwidth", "cwrap", "d1", "d2", "ech", "ed", "ed_a", "ed_at", "ed_g", "ed_gain", "ed_hi", "ed_lo", "ed_q", "ed_r", "ed_rtl", "ed_s", "ed_t", "ed_tb", "ed_tmp", "factor", "k1", "k2", "k3", "k4", "k5", "lch", "na", "nb", "nch", "ncnt", "nest_e", "nlimit", "peak", "plimit", "scale", "sch", "target", "tsim", "tx", "ty", "tz", "user_pkg", "value",
     "s3_al", "lbyte_t", "byte_al", "lstate_t", "lidle", "lrun", "st_al", "lst", "lvec", "lfn", "lfn_al", "mark3", "proc2", "pvar", "pvar_al",
 ];
 const KEYS2: &[&str] = &["dut", "dut2"];
@@ -489,6 +587,10 @@ pub fn gen_base(rng: &mut Rng, idx: usize) -> Proj {
     for f in FLAGS.iter() {
         flags.insert(f, all_on || rng.chance(2, 3));
     }
+    if !all_on {
+        flags.insert("entdecl", rng.chance(1, 2));
+        flags.insert("nest", rng.chance(1, 2));
+    }
     let ieee = rng.chance(1, 8);
     flags.insert("ieee", ieee);
     // an unresolved user attribute with an argument: the one `return_if_finished!(search_pos_with_ref(..))` site
@@ -534,6 +636,17 @@ pub fn gen_base(rng: &mut Rng, idx: usize) -> Proj {
     if more {
         let t = fill(T_MORE, &flags, &names, rng, comments);
         files.push(PFile { lib: "lib".into(), name: "x.vhd".into(), text: t });
+    }
+    if flags["entdecl"] {
+        // declarations in an entity's declarative part used (named association) from an architecture in another file
+        files.push(PFile { lib: "lib".into(), name: "ent.vhd".into(), text: fill(T_ED_ENT, &flags, &names, rng, comments) });
+        files.push(PFile { lib: "lib".into(), name: "arch.vhd".into(), text: fill(T_ED_ARCH, &flags, &names, rng, comments) });
+        files.push(PFile { lib: "lib".into(), name: "edtb.vhd".into(), text: fill(T_ED_TB, &flags, &names, rng, comments) });
+    }
+    if flags["nest"] {
+        // nested package instantiations: two and three levels, in packages, entity, architecture, package body, subprogram
+        files.push(PFile { lib: "lib".into(), name: "n_pkg.vhd".into(), text: fill(T_NEST_PKG, &flags, &names, rng, comments) });
+        files.push(PFile { lib: "lib".into(), name: "n_use.vhd".into(), text: fill(T_NEST_USE, &flags, &names, rng, comments) });
     }
     if lib2 {
         let l2 = names.u("lib2", &mut Rng::new(0)).to_lowercase();
